@@ -59,6 +59,8 @@ theorem C04_partial (h : List Op) (hops : txOrReopen h = true) (hwf : GraphSpec.
     the history runs without error; a further reopen AND a further close both succeed and change no
     read (`SameContent`); and the engine answers every read like the shadow engine `u` that ran only
     the transactions, which agrees with the Spec graph of the history.
+    Before and after every reopen / close the page the engine takes for the root of the property tree
+    (recovered from the ManifestSwitch / Checkpoint records) IS the root of the tree (`RootOK`).
     Covers the checkpoint skip of `replay_graph_transactions` (`txid ≤ checkpoint_txid`), the manifest
     / checkpoint scan, the segment lookup by id, and the close-time log rewrite. -/
 theorem C04_partial_ckpt (h : List Op) (hwf : GraphSpec.wellFormed h = true)
@@ -67,7 +69,7 @@ theorem C04_partial_ckpt (h : List Op) (hwf : GraphSpec.wellFormed h = true)
     ∃ s s' s'' u, Storage.run Cfg.current h = .ok s ∧ s.reopen = .ok s' ∧ s.checkpointOnClose.reopen = .ok s'' ∧
       SameContent s s' ∧ SameContent s s'' ∧
       Storage.run Cfg.current (txPart h) = .ok u ∧ ReadsAgree Cfg.current u (GraphSpec.run h) ∧
-      SameContent u s := by
+      SameContent u s ∧ RootOK s ∧ RootOK s' ∧ RootOK s'' := by
   simp only [GraphSpec.noC06Trigger, Bool.and_eq_true, Bool.not_eq_true'] at hk
   obtain ⟨⟨⟨k1, k2⟩, k3⟩, k4⟩ := hk
   obtain ⟨s, u, hrun, hrunu, hP⟩ := hist_pair h {} {} {} Pair.empty hs hwf (by simpa using hsz) k1 k2 k3 k4
@@ -78,7 +80,7 @@ theorem C04_partial_ckpt (h : List Op) (hwf : GraphSpec.wellFormed h = true)
     obtain ⟨r1, _, _, r4, r5, r6, r7, _, _, _, r10, r11, r12, _, _⟩ := hE.reads
     exact ⟨r1, fun n => congrFun r10 n, fun n => congrFun r11 n, fun x => congrFun r12 x, r6, r7, r4, r5⟩
   exact ⟨s, s', s'', u, hrun, hopen, hclose, sc (hP'.eqv.trans hP.eqv.symm), sc (hP''.eqv.trans hP.eqv.symm),
-    hrunu, hP.sim.reads _, sc hP.eqv⟩
+    hrunu, hP.sim.reads _, sc hP.eqv, hP.root, hP'.root, hP''.root⟩
 
 /-- one reopen step, state level: from any engine state that satisfies the two invariants -/
 theorem reopen_preserves_invariants {s : Engine} {g : GraphSpec.Graph} (hS : Sim s g) (hR : Rec s) :
